@@ -14,6 +14,13 @@ Require Import Base RTLoop RTLoopFacts.
 From Coq Require Import ZifyBool.
 
 (* ---- evaluation time strictly increases ---- *)
+(* The times of the cycles of a run ([eval_times ls]: the times of its LEvalBegin labels, in order)
+   strictly increase, and lie in [start_time, end_time). *)
+Theorem rt_cycle_times_strict : forall c w0 ls s, wfc c -> run c w0 ls s ->
+  decreasing (rev (eval_times ls)) /\ (forall t, In t (eval_times ls) -> c_start c <= t /\ t < c_end c).
+Proof. exact RTLoopFacts.cycle_times_strict_l. Qed.
+Print Assumptions rt_cycle_times_strict.
+
 (* The times advance_realtime returns strictly increase, from start_time on.  Every
    evaluated cycle is evaluated at the latest of them (second theorem), so cycle
    times strictly increase. *)
@@ -207,6 +214,9 @@ Example ex_run_is_a_run :
   | None => False
   end.
 Proof. vm_compute. repeat split; reflexivity. Qed.
+
+Example ex_cycle_times : eval_times ex_run = [112; 130; 145].
+Proof. vm_compute. reflexivity. Qed.
 
 Example ex_wfc : wfc ex_cfg.
 Proof. unfold wfc, ex_cfg, MAX_DT; simpl; lia. Qed.
